@@ -1,19 +1,50 @@
-(* C06 - Check detection agrees with the rules (model-level part: the sentinel ray walk).
-   Agreement of is_check with the rules' `attacked` for both colours is decided by the correspondence
-   with Spec.in_check on exhaustive attacker/blocker geometry and random placements (legal or not).
-   The theorems below hold for every board content and every direction. *)
-From Walleye Require Import Model.Check Proofs.Cells Proofs.Ray.
+(* C06 - Check detection agrees with the rules for both sides in every position.
+   Proved without bound: for every content of the 144 cells with the sentinel ring in place and the two
+   king caches pointing at the (unique) kings, and for both colours, the model's is_check equals the rules'
+   `attacked` relation on the abstracted 8x8 placement: sliders stopped by the first piece in their way,
+   pawns attacking diagonally forward only, knights, an adjacent king.  No assumption on whose turn it is,
+   on the other pieces, or on legality of the placement. *)
+From Walleye Require Import Model.Check Model.Fen Spec.Abs Proofs.Cells Proofs.Ray Proofs.CheckProofs Gen.ZobristTable.
 Open Scope Z_scope.
 
-(* what the walk returns is the first non-empty square along the ray: sliders are stopped by the
-   first piece in their way *)
+Theorem C06_is_check_correct : forall s c,
+  cells_ok (board s) -> kings_ok s ->
+  is_check s c = in_check (abs_placement (board s)) c.
+Proof. exact is_check_correct. Qed.
+
+(* non-vacuity: the hypotheses hold of the start position and of a position with both kings in the open,
+   loaded by the model's FEN loader (boards the generators then keep well-formed: checked by the correspondence) *)
+Example C06_hypotheses_hold_of_loaded_positions :
+  match from_fen zt_concrete DEFAULT_FEN_STRING with
+  | Ok s => cells_ok (board s) /\ kings_ok s /\ is_check s White = false /\ is_check s Black = false
+  | _ => False
+  end.
+Proof.
+  destruct (from_fen zt_concrete DEFAULT_FEN_STRING) as [s| |] eqn:E; [|vm_compute in E; discriminate|vm_compute in E; discriminate].
+  assert (Es : Ok s = from_fen zt_concrete DEFAULT_FEN_STRING) by (symmetry; exact E).
+  vm_compute in Es. injection Es as ->.
+  split; [apply wf_cells_ok; vm_compute; reflexivity|].
+  split; [apply kings_okb_ok; vm_compute; reflexivity|].
+  split; vm_compute; reflexivity.
+Qed.
+
+(* the same for any probed inner square (as castling uses it): the square is attacked by the enemy
+   (king included) exactly when the rules say so *)
+Theorem C06_probe_correct : forall s c sq,
+  cells_ok (board s) -> is_inner sq = true ->
+  get (board s) (king_location s (opposite c)) = Full (mkPiece (opposite c) King) ->
+  (forall p, get (board s) p = Full (mkPiece (opposite c) King) -> p = king_location s (opposite c)) ->
+  king_location s (opposite c) <> sq ->
+  is_check_cords s c sq = attacked (abs_placement (board s)) (opposite c) (sq_of_pt sq).
+Proof. exact is_check_cords_correct. Qed.
+
+(* the sentinel ray walk: first non-empty square, both directions of the characterisation, termination *)
 Theorem C06_walk_finds_first_piece : forall fuel b d p s,
   walk fuel b p d = Some s ->
   exists k, 0 <= k < Z.of_nat fuel /\ s = get b (at_dist p d k) /\ is_empty s = false /\
             forall j, 0 <= j < k -> is_empty (get b (at_dist p d j)) = true.
 Proof. intros fuel b d p s. exact (walk_sound fuel b d p s). Qed.
 
-(* and conversely the first non-empty square, if within reach, is what the walk returns *)
 Theorem C06_walk_complete : forall fuel b d p k,
   0 <= k < Z.of_nat fuel ->
   is_empty (get b (at_dist p d k)) = false ->
@@ -21,8 +52,6 @@ Theorem C06_walk_complete : forall fuel b d p k,
   walk fuel b p d = Some (get b (at_dist p d k)).
 Proof. intros fuel b d p k. exact (walk_complete fuel b d p k). Qed.
 
-(* with the sentinel ring in place the walk from any inner square along any unit direction ends
-   within the fuel the model gives it (in the Rust code: it never indexes outside the array) *)
 Theorem C06_walk_terminates : forall b p d,
   ring_ok b -> is_inner p = true -> unit_dir d -> walk 12 b (padd p d) d <> None.
 Proof. exact walk_terminates. Qed.
@@ -31,6 +60,8 @@ Theorem C06_directions_are_unit :
   Forall unit_dir ROOK_DIRS_CHK /\ Forall unit_dir BISHOP_DIRS_CHK /\ Forall unit_dir ROOK_DIRS_GEN /\ Forall unit_dir BISHOP_DIRS_GEN.
 Proof. exact dirs_are_unit. Qed.
 
+Print Assumptions C06_is_check_correct.
+Print Assumptions C06_probe_correct.
 Print Assumptions C06_walk_finds_first_piece.
 Print Assumptions C06_walk_complete.
 Print Assumptions C06_walk_terminates.
